@@ -386,7 +386,11 @@ DoHeaders(st, op, fired) ==
       T1 == [T0 EXCEPT !.hdrp = TRUE, !.hdr = SeqMap(MkCell, op.items), !.hdrMax = Max2(@, n)]
   IN Fire([st EXCEPT !.tbl[t] = T1], t, 0, fired)
 
-\* attach row object r (already in st.row) to table t
+\* attach row object r (already in st.row) to table t.  A row that already is in a
+\* table may be added again (to the same or another table): it is listed once more,
+\* reports its latest position, and from then on its errors go to that table; the
+\* errors it recorded while detached move to the table exactly once (an attached row
+\* holds no errors of its own, so re-adding it moves nothing).
 Attach(st, t, r) ==
   LET R == st.row[r]
       T0 == GrowCols(st.tbl[t], Len(R.cells))
@@ -571,8 +575,10 @@ Inv_C02(st) ==
     LET T == st.tbl[t] IN
     /\ T.ncols = SetMax({T.hdrMax} \cup {Len(st.row[r].cells) : r \in TableRowIds(st, t)})
     /\ Len(T.cols) = T.ncols + 1
-    /\ \A i \in DOMAIN T.rows : st.row[T.rows[i]].pos = i /\ st.row[T.rows[i]].tbl = t
-    /\ \A i, j \in DOMAIN T.rows : i # j => T.rows[i] # T.rows[j]
+    \* a row listed once in exactly one table reports that position
+    /\ \A i \in DOMAIN T.rows :
+         (\A t2 \in DOMAIN st.tbl : \A j \in DOMAIN st.tbl[t2].rows : (st.tbl[t2].rows[j] = T.rows[i]) => (t2 = t /\ j = i))
+           => (st.row[T.rows[i]].pos = i /\ st.row[T.rows[i]].tbl = t)
     /\ T.hdrp => Len(T.hdr) <= T.ncols
 
 \* detached rows are in no table's list and report position 0
@@ -613,8 +619,8 @@ ObsGrid(st, t) ==
   IN [nrows |-> nr, ncols |-> T.ncols,
       hdrn  |-> IF T.hdrp THEN Len(T.hdr) ELSE -1,
       rows  |-> [i \in 1..nr |-> <<T.rows[i], IF RowOf(i).sep THEN 1 ELSE 0,
-                                   IF RowOf(i).sep THEN -1 ELSE Len(RowOf(i).cells), i, 0>>],
-      cells |-> Flatten([i \in 1..nr |-> [c \in 1..Len(RowOf(i).cells) |-> <<i, c, i, c>>]]),
+                                   IF RowOf(i).sep THEN -1 ELSE Len(RowOf(i).cells), RowOf(i).pos, 0>>],
+      cells |-> Flatten([i \in 1..nr |-> [c \in 1..Len(RowOf(i).cells) |-> <<i, c, RowOf(i).pos, c>>]]),
       cellat |-> Flatten([r \in 1..(nr + 2) |-> [c \in 1..(T.ncols + 2) |->
                     LET ok == IF CellOk(r - 1, c - 1) THEN 1 ELSE 0 IN <<r - 1, c - 1, ok, ok, 1>>]]),
       cols  |-> [n \in 1..(T.ncols + 3) |-> IF n - 2 \in 0..T.ncols THEN 1 ELSE 0],
@@ -626,14 +632,18 @@ ObsDetached(st) ==
   LET ids == SelectSeq([i \in 1..Len(st.row) |-> i], LAMBDA r : st.row[r].tbl = 0)
   IN SeqMap(LAMBDA r : <<r, 0, Len(st.row[r].cells), 0, 0>>, ids)
 
-\* text facet (C01): header cells then all row objects' cells
+\* text facet (C01, C18): header cells then all row objects' cells; per cell the text, the empty
+\* flag, item identity, and the reported height, width and line count (for a cell whose item does
+\* not override its size: height = number of lines, width = widest line, also after Update)
 ObsText(st) ==
   Flatten([t \in 1..Len(st.tbl) |->
      [c \in 1..Len(st.tbl[t].hdr) |->
-        LET x == st.tbl[t].hdr[c] IN <<"h", t, c, x.txt, IF CellEmpty(x) THEN 1 ELSE 0, 1>>]])
+        LET x == st.tbl[t].hdr[c] IN <<"h", t, c, x.txt, IF CellEmpty(x) THEN 1 ELSE 0, 1,
+                                       CellHeight(x), CellWidth(x), Len(x.lines)>>]])
   \o Flatten([r \in 1..Len(st.row) |->
      [c \in 1..Len(st.row[r].cells) |->
-        LET x == st.row[r].cells[c] IN <<"r", r, c, x.txt, IF CellEmpty(x) THEN 1 ELSE 0, 1>>]])
+        LET x == st.row[r].cells[c] IN <<"r", r, c, x.txt, IF CellEmpty(x) THEN 1 ELSE 0, 1,
+                                       CellHeight(x), CellWidth(x), Len(x.lines)>>]])
 
 \* errors (C11): same multiset, per-source order, nil iff empty, no nil entries
 Ids(es) == SeqMap(LAMBDA e : e.id, es)
